@@ -354,3 +354,25 @@ REGISTRY["C20"] = {
           "same, for the activation messages", ["command/src/config.rs"], prop="c20", unroll=300, unroll_thorough=600, loop_type="TcpListenerConfig", loop_ordinal=1),
     ],
 }
+
+SV = ["lib/src/server.rs"]
+REGISTRY["C08"] = {
+    "engine": "mir",
+    "technique": "symbolic execution of the MIR of Server::notify / notify_proxys into SMT (answer-count over all paths) + bounded model checking (Kani) of the get_destinations routing table + MIR write-set comparison of the listener patch",
+    "level_text": "z3 and cvc5 both decide, over every path of the real compiled MIR, that Server::notify queues exactly one final answer for every worker-level verb (closures that answer are analysed and counted) or delegates exactly once to notify_proxys, and that notify_proxys queues at most one final answer and leaves a request unanswered only when it has neither a proxy destination nor a listener special case - under the contract that listener verbs have no proxy destination, which two Kani harnesses pin on the real Request::get_destinations for every worker-reachable RequestType. A further MIR obligation shows the worker's ConfigState records every field of an accepted listener patch (the queryable view follows the behaviour).",
+    "level_note": "Each proxy's own notify (http/https/tcp/udp: HashMap + sockets) returning exactly one response, the special-cased HardStop/SoftStop/ReturnListenSockets answers in read_channel_messages_and_notify, and equality of the worker's whole view with the master's are outside the claim. A verb with no destination and no special case (master-only verbs, empty request) gets no answer: stated, not claimed.",
+    "rule": "C08: answer-count obligations per dispatcher function + routing-table contract.",
+    "trusted_base": ["get_destinations contract is assumed inside the notify_proxys obligation and discharged by the Kani harnesses"],
+    "assumptions": ["a call to push_queue is a final answer (WorkerResponse::ok / error / ok_with_content); Processing notices are emitted elsewhere"],
+    "residual": "per-proxy notify implementations, master-only verbs reaching a worker, worker view == master view as whole states, routing/listening behaviour matching the view.",
+    "obligations": [
+        M("c08_notify_answers_once_or_delegates", "whole function (217 blocks), loops unrolled 2x, 11 answering closures analysed separately", "no path queues two answers of its own; every returning path queues an answer or delegates to notify_proxys; never delegates twice", SV, prop="c08", which="notify"),
+        M("c08_notify_proxys_at_most_one_answer", "whole function (201 blocks); destination flags symbolic under the routing contract", "at most one final answer per path; zero answers only without destination and without listener special case", SV, prop="c08", which="notify_proxys"),
+        K("c08::c08_destinations_listener_and_worker_level_verbs", "the 12 listener verbs + 9 worker-level verbs (default payloads, symbolic scalars); unwind 3", "no proxy destination (otherwise they would be answered twice)", ["command/src/request.rs"]),
+        K("c08::c08_destinations_proxy_verbs", "the 21 proxy verbs; unwind 3", "frontend/certificate verbs -> exactly their proxy kind; cluster/backend/health/stop/status -> all four", ["command/src/request.rs"]),
+        M("c08_http_listener_patch_recorded", _c07, "every patch field that has a same-named listener field is stored by ConfigState::update_http_listener on Ok paths (the view follows what the worker-side listener applies)", ["command/src/state.rs"], prop="c08", which="recorded", fn_suffix="::update_http_listener",
+          listener_struct="HttpListenerConfig", patch_struct="UpdateHttpListenerConfig", replay_filter="accepted_patch"),
+        M("c08_https_listener_patch_recorded", _c07, "same for ConfigState::update_https_listener", ["command/src/state.rs"], prop="c08", which="recorded", fn_suffix="::update_https_listener",
+          listener_struct="HttpsListenerConfig", patch_struct="UpdateHttpsListenerConfig", replay_filter="accepted_patch"),
+    ],
+}
